@@ -65,6 +65,9 @@ BeginWrite ==
   /\ UNCHANGED <<man, old, tags, nextV>>
 FinishWrite ==
   /\ Bump /\ pending # {} /\ nextV <= MaxVersions
+  \* a writer whose uploaded files were removed (unverified deletion was requested, or they had left the safety
+  \* window) is outside the property: C08 promises a sound late commit only otherwise
+  /\ pending \subseteq store
   /\ man' = man @@ (nextV :> (man[Latest] \cup pending))
   /\ pending' = {} /\ nextV' = nextV + 1
   /\ hist' = Append(hist, [op |-> "finish"])
